@@ -14,10 +14,11 @@ EXPLANATION = (
     "R_measure's R^2, where 0 means no association); R-rank-desc (rankings are descending on the "
     "measure); R-defaults (default measures / filters per task are the rank-based or sign-free ones: "
     "kruskal, tschuprowt, |correlation|, spearman filter; quantitative lists are routed to dtype "
-    "float, qualitative lists to str)."
+    "float, qualitative lists to str); R-column-order-free (the ranking table is built over X[features], "
+    "never in the order of X's columns, so permuting columns cannot change how ties are broken)."
 )
 NOT_DECIDED = "the invariance of the returned list on data; scipy's statistics"
-FLOORS = {"R-abs-corr": 2, "R-no-float-truthiness": 10, "R-rank-desc": 5, "R-defaults": 5}
+FLOORS = {"R-abs-corr": 2, "R-no-float-truthiness": 10, "R-rank-desc": 5, "R-defaults": 5, "R-column-order-free": 2}
 
 
 def check(ctx):
@@ -25,6 +26,7 @@ def check(ctx):
     S.check_no_float_truthiness(ctx, "R-no-float-truthiness")
     S.check_rank_desc(ctx, "R-rank-desc")
     S.check_defaults(ctx, "R-defaults")
+    S.check_column_order_free(ctx, "R-column-order-free")
 
 
 _D14_FIXED = "    # absolute linear correlation (1 - correlation distance): the greater, the more associated\n    d_corr = abs(1 - correlation(x[~nans], y[~nans]))\n\n    # updating association\n    active, measurement = False, {\"distance_measure\": nan}\n    if d_corr == d_corr:  # checking for nan"
@@ -33,6 +35,7 @@ MUTANTS = [
     M("D14-reverted: distance ranks by 1 - r and drops r = 1", [(F_QTM, _D14_FIXED, _D14_OLD)], "R-abs-corr", "distance_measure", quick=True),
     M("D14-half: abs kept, truthiness test back", [(F_QTM, "    if d_corr == d_corr:  # checking for nan", "    if d_corr:")], "R-no-float-truthiness", "distance_measure", quick=True),
     M("signed correlation in the filter", [(F_QTF, "    X_corr = X[prefered_order].corr(corr_measure).abs()", "    X_corr = X[prefered_order].corr(corr_measure)")], "R-abs-corr", "quantitative_filter"),
+    M("measures applied in X's column order", [(F_SEL, "        X[features]\n        .apply(feature_association,", "        X.loc[:, X.columns.isin(features)]\n        .apply(feature_association,")], "R-column-order-free"),
     M("ranking ascending", [(F_SEL, "        initial_associations = initial_associations.sort_values(measure_names, ascending=False)", "        initial_associations = initial_associations.sort_values(measure_names, ascending=True)")], "R-rank-desc", "decreasing"),
     M("regression default uses the pearson filter", [("AutoCarver/selectors/regression_selector.py", "            quantitative_filters = [spearman_filter]", "            quantitative_filters = []")], "R-defaults", "RegressionSelector"),
     M("classification routes qualitative measures to quantitative features", [("AutoCarver/selectors/classification_selector.py", "        measures = {\"float\": quantitative_measures, \"str\": qualitative_measures}", "        measures = {\"float\": qualitative_measures, \"str\": quantitative_measures}")], "R-defaults", "ClassificationSelector"),
